@@ -55,7 +55,7 @@ func findTextwireFiles() (map[string]string, error) {
 			return err
 		}
 
-		if info.IsDir() || !strings.Contains(path, userConfig.TemplateExt) {
+		if info.IsDir() || !strings.HasSuffix(path, userConfig.TemplateExt) {
 			return nil
 		}
 
@@ -78,7 +78,7 @@ func findTextwireFiles() (map[string]string, error) {
 }
 
 func nameFromPath(path string) string {
-	name := strings.Replace(path, userConfig.TemplateDir+"/", "", 1)
-	name = strings.Replace(name, userConfig.TemplateExt, "", 1)
+	name := strings.TrimPrefix(path, userConfig.TemplateDir+"/")
+	name = strings.TrimSuffix(name, userConfig.TemplateExt)
 	return name
 }
